@@ -26,7 +26,7 @@ func init() {
 		f.natList("TokenContract", toN(types.TokenContract.Bytes()))
 		f.natList("ZnnTokenStandard", toN(types.ZnnTokenStandard[:]))
 		f.natList("QsrTokenStandard", toN(types.QsrTokenStandard[:]))
-		f.nat("HashSize", uint64(types.HashSize))
+		f.nat("GnHashSize", uint64(types.HashSize))
 		f.nat("AccountBlockHeaderRawLen", uint64(nom.AccountBlockHeaderRawLen))
 		// chain/genesis/shared_tests.go: the validators CheckGenesis calls, in order (read from the AST)
 		src, err := parseSrc(repo, "chain/genesis/shared_tests.go")
@@ -87,7 +87,7 @@ func init() {
 				})
 			}
 		}
-		f.strList("accountHeaderBytesFields", fields)
+		f.strList("gnAccountHeaderBytesFields", fields)
 		return f, nil
 	})
 }
